@@ -8,6 +8,8 @@ mod pure_misc;
 mod pure_segments;
 mod udp;
 mod report;
+mod sim;
+mod simgen;
 mod util;
 
 #[global_allocator]
@@ -76,6 +78,42 @@ fn main() {
             let mut rep = report::Report::new();
             pure_misc::run_c17a(&mut rep, &tier, seed, r);
             (pure_misc::meta_c17a_only(), rep)
+        }
+        "demo" => {
+            let mut k = simgen::Knobs::base();
+            if let Some(r) = r {
+                for tok in r.split(',') {
+                    match tok {
+                        "unack" => k.mode = cfdp_core::pdu::TransmissionMode::Unacknowledged,
+                        "closure" => k.closure = true,
+                        "crc" => k.crc = true,
+                        "imm" => k.nak = cfdp_core::daemon::NakProcedure::Immediate(std::time::Duration::ZERO),
+                        _ => {}
+                    }
+                }
+            }
+            let mut rng = util::Rng::new(seed);
+            let size: usize = std::env::var("DEMO_SIZE").ok().and_then(|s| s.parse().ok()).unwrap_or(200);
+            let c = simgen::content(&mut rng, size, 0, 64, 7);
+            let mut sc = simgen::two_party("demo", seed, &k, c);
+            if let Ok(d) = std::env::var("DEMO_DROP") {
+                for t in d.split(',') {
+                    let mut it = t.split(':');
+                    let from: usize = it.next().unwrap().parse().unwrap();
+                    let n: usize = it.next().unwrap().parse().unwrap();
+                    sc.rules.push(sim::Rule { from, to: 1 - from, m: sim::Matcher::Nth(n), a: sim::Action::Drop });
+                }
+            }
+            sc.probe = std::env::var("DEMO_PROBE").is_ok();
+            let scratch = util::scratch("demo");
+            let t = std::time::Instant::now();
+            let log = sim::run(sc, &scratch);
+            eprintln!("wall {:?}, virtual end {} ms, events {}", t.elapsed(), log.end_us / 1000, log.recs.len());
+            for l in sim::render_log(&log, 400) {
+                eprintln!("{}", l);
+            }
+            eprintln!("alive at end: {:?} probe {:?} daemons {:?}", log.tasks_alive_at_end, log.probe, log.daemons_alive);
+            std::process::exit(0);
         }
         other => {
             eprintln!("unknown property {}", other);
